@@ -12,6 +12,7 @@ import (
 	pkgframe "github.com/pion/rtp/pkg/frame"
 	"pgregory.net/rapid"
 
+	"verifharness/ref/av1rtp"
 	"verifharness/ref/h265rtp"
 	"verifharness/ref/vp8desc"
 	"verifharness/ref/vp9desc"
@@ -342,6 +343,24 @@ func genValidTrain(t *rapid.T, recv string) [][]byte {
 				c.OBUs[i].Size %= 200
 			}
 		}
+		if rapid.IntRange(0, 2).Draw(t, "vav1refenc") == 0 {
+			// packet shapes the library's payloader never produces: W=0 with every element length-prefixed,
+			// up to three elements per packet, fragments cut anywhere
+			var obus [][]byte
+			total := 0
+			for i := range c.OBUs {
+				o := &c.OBUs[i]
+				obus = append(obus, append(o.hdr(false).Bytes(), expand(o.Seed, 0, o.Size)...))
+				total += 2 + o.Size
+			}
+			lo := maxi(1, total/24)
+			var ws []int
+			for i, k := 0, rapid.IntRange(1, 4).Draw(t, "vav1nw"); i < k; i++ {
+				ws = append(ws, rapid.IntRange(0, 1).Draw(t, "vav1w"))
+			}
+
+			return av1rtp.Pack(obus, rapid.IntRange(lo, maxi(lo, 60)).Draw(t, "vav1room"), ws, genBool(t, "vav1n"))
+		}
 
 		return (&codecs.AV1Payloader{}).Payload(c.MTU, c.input())
 	default:
@@ -524,7 +543,7 @@ func enumC09(r *run, maxLen int) bool {
 	return true
 }
 
-const ruleC09 = "rapid draws a receiver (H264Packet Annex-B/AVC/zero-allocation, H265Packet +-DONL, VP8Packet, VP9Packet, AV1Depacketizer, AV1Packet + frame.AV1 directly or through pkg/frame, OpusPacket, the deprecated PartitionHeadChecker types) and 1-8 steps Unmarshal/IsPartitionHead/IsPartitionTail over payloads that are nil, empty, random (1-60 bytes), valid (library payloader output fed mostly in order, reference-built descriptors/payloads) or 1-2 byte mutations of valid ones; plus every byte string of length <=2 (quick) / <=3 (thorough) against every receiver. Oracle: no panic, input unmodified; per-packet formats: result, error-ness and all metadata equal a fresh receiver's; H264Packet/AV1Depacketizer: each input buffer is overwritten after the call and every result (and AV1 Z/Y/N) must equal a twin's that got pristine copies. Non-trivial = >=2 accepted payloads on one receiver, every enumerated string; distinct = FNV-64 of the JSON case"
+const ruleC09 = "rapid draws a receiver (H264Packet Annex-B/AVC/zero-allocation, H265Packet +-DONL, VP8Packet, VP9Packet, AV1Depacketizer, AV1Packet + frame.AV1 directly or through pkg/frame, OpusPacket, the deprecated PartitionHeadChecker types) and 1-8 steps Unmarshal/IsPartitionHead/IsPartitionTail over payloads that are nil, empty, random (1-60 bytes), valid (library payloader output fed mostly in order, reference-built descriptors/payloads, AV1 trains of an independent encoder with W=0 and counted forms) or 1-2 byte mutations of valid ones; plus every byte string of length <=2 (quick) / <=3 (thorough) against every receiver. Oracle: no panic, input unmodified; per-packet formats: result, error-ness and all metadata equal a fresh receiver's; H264Packet/AV1Depacketizer: each input buffer is overwritten after the call and every result (and AV1 Z/Y/N) must equal a twin's that got pristine copies. Non-trivial = >=2 accepted payloads on one receiver, every enumerated string; distinct = FNV-64 of the JSON case"
 
 func TestC09(t *testing.T) {
 	r := begin(t, "C09", "exploration", ruleC09)
